@@ -108,18 +108,20 @@ static inline size_t std_max_ulong(size_t a, size_t b) { return a < b ? b : a; }
 #else
 #define TR_FACTS 1
 #endif
-size_t TRC_W, TRC_N, TRC_WIT; int TRC_R, TRC_HIT; const void *TRC_A, *TRC_B, *TRC_PROBE;
+size_t TRC_W, TRC_N, TRC_WIT; int TRC_R, TRC_HIT, TRC_CALLS, TRC_CI /* last element-wise comparison was case-insensitive */; const void *TRC_A, *TRC_B, *TRC_PROBE;
 #define TR_CMP(T, UT, sfx) \
 int tr_compare_##sfx(const T *a, const T *b, size_t n) { \
     __CPROVER_assert(n == 0 || (__CPROVER_r_ok(a, n * sizeof(T)) && __CPROVER_r_ok(b, n * sizeof(T))), "tr_compare.precondition: both ranges readable for n elements"); \
     int r = nondet_int(); size_t w = nondet_size_t(); \
+    if (TRC_CALLS > 0 && !TRC_CI && TRC_A == (const void *)a && TRC_B == (const void *)b && TRC_N == n) { TRC_CALLS++; return TRC_R; }   /* compare() is a function of its arguments */ \
+    TRC_CALLS++; \
     if (n == 0) r = 0; \
     if (TR_FACTS) { \
     if (r == 0) { __CPROVER_assume((GI0 < n ==> a[GI0] == b[GI0]) && (GI1 < n ==> a[GI1] == b[GI1]) && (GI2 < n ==> a[GI2] == b[GI2])); w = n; } \
     else { __CPROVER_assume(w < n && a[w] != b[w] && ((r < 0) == ((UT)a[w] < (UT)b[w])) \
            && (GI0 < w ==> a[GI0] == b[GI0]) && (GI1 < w ==> a[GI1] == b[GI1]) && (GI2 < w ==> a[GI2] == b[GI2])); } \
     } \
-    TRC_W = w; TRC_N = n; TRC_R = r; TRC_A = a; TRC_B = b; \
+    TRC_W = w; TRC_N = n; TRC_R = r; TRC_A = a; TRC_B = b; TRC_CI = 0; \
     if ((const void *)a == TRC_PROBE) { TRC_HIT = 1; TRC_WIT = w; } \
     return r; \
 }
